@@ -2,6 +2,7 @@
 // @id C10.roundtrip.SS
 // @engine B
 // @entry vfh_C10_rt_ss
+// @shared_state_watch
 // @tier Q
 // @reach ss.reread
 // @funcs cxxSS::dump_raw; cxxSS::read_raw; cxxSScomp::dump_raw; cxxSScomp::read_raw; CParser::get_option
